@@ -18,7 +18,7 @@ Proof.
   intros u so refs ds Henum n bf ign t v Hrt Hno Hht Hcan Hof Hwf Hcm Hk.
   destruct (container_round_trip u so n t v Hrt Hno Hht Hcan) as [j [d [Hi [Hu Hs]]]].
   exists j, d. split; [exact Hi|]. split; [exact Hu|]. intros Hd.
-  rewrite (frag_agree u (dopts_of so) refs ds Henum (S n) bf t ign d Hof Hwf Hcm Hk Hd), Hs. reflexivity.
+  rewrite (frag_agree u (dopts_of so) refs ds Henum 0 (S n) bf t ign d Hof Hwf Hcm Hk Hd), Hs. reflexivity.
 Qed.
 
 (* the hypotheses are satisfiable *)
